@@ -219,6 +219,8 @@ func (e *env) run(in Input) Obs {
 			tx = tx.Set("c09:key", 1)
 		case "scope_empty_where":
 			tx = tx.Scopes(func(d *gorm.DB) *gorm.DB { return d.Where("").Where(map[string]interface{}{}) })
+		case "clauses_empty_where":
+			tx = tx.Clauses(clause.Where{})
 		case "session_pu":
 			tx = tx.Session(&gorm.Session{PropagateUnscoped: true})
 		case "session_misc":
@@ -373,6 +375,18 @@ func runTarget(tx *gorm.DB, in Input, table string) *gorm.DB {
 	panic("unknown target " + in.Target)
 }
 
+// sig: known-finding signature. An empty clause.Where object passes the guard; the statement is
+// then refused by the database (known finding). The signature covers exactly that outcome: if any
+// row changed the case carries no signature and is a violation.
+func sig(in Input, o Obs) string {
+	for _, s := range in.Steps {
+		if s.Deco == "clauses_empty_where" && !o.Changed {
+			return "empty-where-clause-object"
+		}
+	}
+	return ""
+}
+
 func model0(in Input) interface{} {
 	if in.Soft {
 		return &whr.TS{}
@@ -489,7 +503,7 @@ func main() {
 			}
 		}
 		out.Add(lib.Case{Term: term(in, o), JSON: map[string]interface{}{"input": in, "observed": o},
-			Kind: kind, Shape: shape(in), Nontriv: len(in.Steps) > 0})
+			Sig: sig(in, o), Kind: kind, Shape: shape(in), Nontriv: len(in.Steps) > 0})
 		out.Count("finisher", in.Finisher)
 		out.Count("target", "model"+in.Target)
 		out.Count("allow", in.Allow)
@@ -599,6 +613,29 @@ func main() {
 			}
 		}
 	}
+	// the known shape: an empty clause.Where object handed over through Clauses()
+	for _, f := range []string{"update", "updates_map", "update_columns", "delete"} {
+		for _, soft := range []bool{false, true} {
+			for _, extra := range [][]Step{nil, {{Deco: "unscoped"}}, {emptyCall("where", "empty_map")}} {
+				add("known-shape", Input{Soft: soft, Allow: "off", Finisher: f, Steps: append([]Step{{Deco: "clauses_empty_where"}}, extra...)})
+			}
+		}
+	}
+	// a read through the handle (Count), then a real DELETE through the same handle, with exactly one
+	// real condition: plain models and Unscoped soft-delete models
+	for i := 0; i < 24; i++ {
+		in := Input{Soft: i%2 == 0, Allow: lib.Pick(r, []string{"off", "off", "session"}), Finisher: "delete", QueryFirst: true}
+		in.Atoms = whr.GenAtoms(r, names, nicks)
+		g := whr.NewGen(r, in.Atoms)
+		if in.Soft {
+			in.Steps = append(in.Steps, Step{Deco: "unscoped"})
+		}
+		in.Steps = append(in.Steps, Step{Call: &whr.Call{Kind: lib.Pick(r, []string{"where", "where", "not"}), Unit: g.GenUnit(1, false, false)}})
+		if i%3 == 0 {
+			in.Steps = append(in.Steps, lib.Pick(r, []Step{{Deco: "order"}, {Deco: "limit"}, {Deco: "session_plain"}, {Deco: "with_context"}}))
+		}
+		add("read-then-delete", in)
+	}
 	// random chains with at least one real condition mixed with condition-free calls
 	budget := 500
 	if a.Tier == "thorough" {
@@ -643,7 +680,22 @@ func main() {
 				in.Finisher = "delete"
 			}
 		}
-		if in.Finisher == "delete" && in.Target == "" && r.Bool() {
+		selfJoin := false
+		for _, st := range in.Steps {
+			if st.Deco == "joins_raw" {
+				selfJoin = true // (the read would fail on its own: unqualified columns under a self join)
+			}
+		}
+		if in.Finisher == "delete" && in.Target == "" && !selfJoin && r.Chance(1, 3) {
+			// a read through the handle first (Count), then the Delete through the same handle; only
+			// where the Delete is a real DELETE (a soft delete is an UPDATE and inherits the read's
+			// FROM clause, which SQLite refuses: misuse of a chain handle, not this property's matter)
+			in.QueryFirst = true
+			if in.Soft && !hasUnscoped(in.Steps) {
+				in.Steps = append([]Step{{Deco: "unscoped"}}, in.Steps...)
+			}
+		}
+		if in.Finisher == "delete" && in.Target == "" && !in.QueryFirst && r.Bool() {
 			in.InlineLast = true // takes effect when the last step is a Where call
 		}
 		add("main", in)
